@@ -579,7 +579,7 @@ def aliases : List Alias := [
   ⟨11, 5, 25, 6, 6, 26, false, false⟩,
   ⟨11, 17, 27, 19, 19, 28, false, false⟩,
   ⟨11, 21, 29, 22, 22, 30, false, false⟩,
-  ⟨11, 40, 32, 41, 41, 272, false, false⟩,
+  ⟨11, 40, 32, 41, 41, 272, false, true⟩,
   ⟨11, 42, 33, 43, 43, 34, false, false⟩,
   ⟨11, 48, 35, 50, 50, 37, false, false⟩,
   ⟨11, 49, 36, 51, 51, 38, false, false⟩,
@@ -690,6 +690,9 @@ def knownBad : List (ClassId × NameId) := [(11, 40)]
 /-- reviewed exceptions to the spelling rule -/
 def exceptions : List (List Char × List Char) := [("cnl_avail".toList, "cnl".toList), ("logcnl_avail".toList, "logcnl".toList), ("segment_parameter".toList, "segmented_beta".toList)]
 
+/-- reviewed exceptions to the spelling rule for obsolete keywords (empty replacement: ignored keyword) -/
+def kwExceptions : List (List Char × List Char) := [("parameter_file".toList, "parameters".toList), ("seed_param".toList, "seed".toList), ("bootstrap".toList, "run_bootstrap".toList), ("suggestScales".toList, "".toList)]
+
 def kwUses : List KwUse := [
   ⟨3, 0, [(178, none), (179, some 180), (181, some 182), (183, some 184), (185, some 186), (187, some 188), (189, some 190), (191, some 192), (193, some 194)], [195, 196, 197, 188, 186, 198], [199, 200, 201, 190, 202, 203, 204, 205, 206, 207, 208, 209, 210, 211, 212, 184, 182, 213, 180, 214, 215, 192, 216, 194, 217, 218, 219]⟩,
   ⟨3, 0, [(220, some 221)], [195, 222, 221], []⟩,
@@ -699,7 +702,7 @@ def kwUses : List KwUse := [
   ⟨19, 38, [(181, some 182)], [195, 196, 182, 230, 231, 232], []⟩,
   ⟨19, 0, [(181, some 182)], [195, 196, 182, 230, 231, 232], []⟩,
   ⟨19, 114, [(181, some 182), (233, some 234)], [195, 235, 196, 182, 230, 231, 232, 236, 234, 237], []⟩,
-  ⟨19, 115, [(181, some 234), (233, some 182)], [195, 196, 235, 182, 236, 234], []⟩,
+  ⟨19, 115, [(181, some 182), (233, some 234)], [195, 196, 235, 182, 236, 234], []⟩,
   ⟨19, 0, [(181, some 182)], [195, 196, 182], []⟩,
   ⟨103, 0, [(238, some 239), (240, some 241)], [195, 241, 239, 203], []⟩,
   ⟨103, 86, [(242, some 243)], [195, 243], []⟩,
@@ -723,6 +726,9 @@ theorem legacy_ok : checkLegacy names exceptions aliases = true := by decide +ke
 
 /-- keyword maps are injective, target existing parameters, and obsolete names are not parameters -/
 theorem kw_ok : checkKw kwUses = true := by decide +kernel
+
+/-- every obsolete keyword is the legacy spelling of its replacement (or a reviewed exception) -/
+theorem kw_legacy_ok : checkKwLegacy names kwExceptions kwUses = true := by decide +kernel
 
 /-- number of (class, alias) slots the correspondence must cover -/
 theorem slot_count : countSlots classes aliases = 656 := by decide +kernel
